@@ -214,6 +214,9 @@ StringDictionaryHASHUFFDAC::StringDictionaryHASHUFFDAC(IteratorDictString *it,
   bytesStrings++;
 
   table = builder->getTable();
+  // The coder created above can only encode: attach the decoding table
+  delete coder;
+  coder = new StatCoder(table, codewords);
   hash->finish(bytesStrings);
   hash->setData(dac);
 
